@@ -27,6 +27,8 @@ type fpShape struct {
 	include   bool // the task lives in an included Taskfile (namespaced)
 	label     bool
 	dirAttr   bool   // task has dir: newdir (does not exist at first)
+	dirSh     bool   // with dirAttr: the task also has a dynamic variable, a precondition and a status check (commands that read-only modes still run)
+	deferCmd  bool   // the task has a deferred shell command that writes a file
 	global    string // top-level method: differing from the task's own
 	broken    bool   // the Taskfile also has a task that cannot be compiled (for over a non-list var)
 }
@@ -44,9 +46,14 @@ func (sh fpShape) taskName() string {
 func fpBody(tag string, sh fpShape) string {
 	lines := []string{
 		"    cmds:",
-		"      - 'echo start:" + tag + " >> {{.ROOT_DIR}}/trace.log'",
-		"      - 'if [ \"$KILL_AT\" = \"1\" ]; then kill -9 $$; fi; if [ \"$FAIL_AT\" = \"1\" ]; then exit 3; fi'",
 	}
+	if sh.deferCmd {
+		lines = append(lines, "      - defer: 'echo deferred:"+tag+" >> {{.ROOT_DIR}}/deferred.txt'")
+	}
+	lines = append(lines,
+		"      - 'echo start:"+tag+" >> {{.ROOT_DIR}}/trace.log'",
+		"      - 'if [ \"$KILL_AT\" = \"1\" ]; then kill -9 $$; fi; if [ \"$FAIL_AT\" = \"1\" ]; then exit 3; fi'",
+	)
 	if sh.generates {
 		lines = append(lines, "      - 'cat {{.ROOT_DIR}}/src/*.txt > {{.ROOT_DIR}}/out.txt'")
 		if sh.gen2 {
@@ -77,6 +84,9 @@ func (sh fpShape) files() map[string]string {
 		}
 		if sh.dirAttr {
 			s += "    dir: newdir\n"
+		}
+		if sh.dirSh {
+			s += "    vars:\n      DYN: {sh: 'echo dyn'}\n    preconditions:\n      - 'true'\n    status:\n      - 'false'\n"
 		}
 		if sh.dep && tag == "build" {
 			s += "    deps: [prep]\n"
@@ -457,7 +467,8 @@ func fpUnits(prop, tier string) []*Unit {
 			fpShape{name: "include-label", method: m, include: true, label: true},
 		)
 		if prop == "C12" {
-			shapes = append(shapes, fpShape{name: "dir-attr", method: m, dirAttr: true}, fpShape{name: "with-broken-task", method: m, broken: true})
+			shapes = append(shapes, fpShape{name: "dir-attr", method: m, dirAttr: true}, fpShape{name: "with-broken-task", method: m, broken: true},
+				fpShape{name: "dir-attr-dynvar-precondition-status", method: m, dirAttr: true, dirSh: true}, fpShape{name: "deferred-command", method: m, deferCmd: true})
 		} else {
 			shapes = append(shapes, fpShape{name: "dep", method: m, dep: true}, fpShape{name: "two-generates", method: m, generates: true, gen2: true})
 			other := "timestamp"
